@@ -109,13 +109,12 @@ def table_handle_cemi_frame(chk: Check, repo: Repo) -> None:
                             else:
                                 want = {(("DECRYPT:fail", "KEYISSUE"), "exit")}
                         else:
-                            # other codes never carry CEMILData (c); if they did they must not be delivered as telegrams... the code
-                            # treats any remaining code as an indication: covered by obligation (c) on from_knx
-                            want = None
-                        if want is None:
-                            continue
+                            # every other service (L_Raw, L_Poll_Data, L_Busmon, M_*): today's parser refuses them before
+                            # this point (obligation (c) on from_knx), a frame built by a caller - or a parser taught one of
+                            # them later - is still not an indication: nothing is delivered and no send is released
+                            want = {((), "exit")}
                         ok = traces == want
-                        if not ok or (dcls == "CEMILData" and cname.startswith("L_DATA")):
+                        if not ok or dcls == "CEMILData":
                             chk.ob("routing-cell", fi.site(), ok,
                                    f"data={dcls} code={cname} data_secure={'configured' if ds_conf else 'none'} secured={secured} decrypt={dec}: code {sorted(traces)}; reference {sorted(want)}",
                                    key=f"handle|{dcls}|{cname}|{ds_conf}|{secured}|{dec}|{sorted(traces)}" if not ok else f"handle|{dcls}|{cname}|{ds_conf}|{secured}|{dec}")
@@ -206,6 +205,18 @@ def check_confirmation(chk: Check, repo: Repo) -> None:
     chk.ob("clear-before-handover", fi.site(c.ast), cfg.dominates(c.id, s.id) and c.id not in cfg.reachable([s.id], include_start=False), "event.clear() dominates the hand-over to the interface and cannot run after it (a confirmation that arrived before the hand-over cannot satisfy the wait)", key="clear-before-handover")
     chk.ob("handover-before-wait", fi.site(w.ast), cfg.dominates(s.id, w.id), "the wait is reached only after send_cemi returned", key="handover-before-wait")
     chk.ob("success-needs-confirmation", fi.site(), cfg.all_paths_hit(cfg.entry, [w.id], ends=[cfg.exit]) and all(lab != "exc" or True for _, lab in w.succ), "every normal return passes the wait for the confirmation event", key="success-needs-confirmation")
+    # the event is one per handler and says nothing about the frame it confirms: between clear() and the end of the wait
+    # no second send may be between its own clear() and wait() (its clear() wipes the confirmation the first is about to
+    # wait for; the first's confirmation, latched, satisfies the second before its frame left) - all three statements sit
+    # inside one `async with` of a lock that is created once per handler
+    common = [x for x in enclosing_with_items(c.withs) if x in enclosing_with_items(s.withs) and x in enclosing_with_items(w.withs) and x.startswith("self.")]
+    locks = []
+    for x in common:
+        lw = attr_writes(repo, x.split(".", 1)[1], include_mutators=False)
+        lw = [y for y in lw if y.func.cls is fi.cls]
+        if len(lw) == 1 and lw[0].func.name == "__init__" and ast.unparse(lw[0].stmt.value) == "asyncio.Lock()":
+            locks.append(x)
+    chk.ob("one-send-between-clear-and-confirmation", fi.site(c.ast), bool(locks), f"clear(), hand-over and wait run under `async with {locks[0]}` (an asyncio.Lock created once in __init__)" if locks else "clear(), the hand-over and the wait for the confirmation are not serialised: a second send_telegram() (management T_ACK next to the telegram queue) clears the confirmation the first one waits for - a confirmed send fails with ConfirmationError - or completes on the first one's confirmation before its own frame left", key="confirmation|serialised")
     withs = enclosing_with_items(w.withs)
     tmo = [x for x in withs if x.startswith("asyncio.timeout(")]
     val = NOFOLD
